@@ -82,6 +82,15 @@ type ExploreStats struct {
 // Executions are independent and are spread over all cores level by level.
 // name prefixes case IDs; body must be deterministic in its decisions.
 func (r *Run) Explore(name string, bound int, body func(c *Ctx)) ExploreStats {
+	return r.explore(name, bound, body, true)
+}
+
+// ExploreSerial is Explore with executions run one at a time (for bodies that use process-global state).
+func (r *Run) ExploreSerial(name string, bound int, body func(c *Ctx)) ExploreStats {
+	return r.explore(name, bound, body, false)
+}
+
+func (r *Run) explore(name string, bound int, body func(c *Ctx), parallel bool) ExploreStats {
 	st := ExploreStats{Bound: bound, Complete: true}
 	frontier := [][]int{{}}
 	var mu sync.Mutex
@@ -92,7 +101,11 @@ func (r *Run) Explore(name string, bound int, body func(c *Ctx)) ExploreStats {
 			st.Complete = false
 			break
 		}
-		done := r.Parallel(len(frontier), func(i int) {
+		run := r.Parallel
+		if !parallel {
+			run = r.Serial
+		}
+		done := run(len(frontier), func(i int) {
 			prefix := frontier[i]
 			c := &Ctx{prefix: prefix}
 			body(c)
